@@ -24,6 +24,11 @@ type caseC17 struct {
 	ModelGob string `json:"model_gob"`
 	Model    string `json:"model"`
 	Wire     bool   `json:"wire"` // decode from a reference-encoded frame instead of building through the API
+	// Via: how the Publish value is obtained. "" = stand-alone; "attached" =
+	// built (or decoded) and then passed to Connect.SetWill, the caller still
+	// holds and judges the same *Publish; "will-decoded" = the value returned
+	// by Will() of a CONNECT decoded from a frame that carries it as its will.
+	Via string `json:"via,omitempty"`
 }
 
 // reference predicates, written from the statement
@@ -87,6 +92,38 @@ func checkC17(c caseC17) (sig, msg string) {
 		if pan := guard.Call(func() { p = api.BuildDefault(&m) }); pan != nil {
 			return "panic", fmt.Sprintf("build panicked: %v", pan.Value)
 		}
+	}
+	if pp, ok := p.(*mq.Publish); ok && c.Via == "attached" {
+		if pan := guard.Call(func() {
+			cn := mq.NewConnect()
+			cn.SetClientID("c17")
+			cn.SetWill(pp)
+			_, _, _ = api.Encode(cn)
+		}); pan != nil {
+			return "panic", fmt.Sprintf("SetWill panicked: %v", pan.Value)
+		}
+	}
+	if pp, ok := p.(*mq.Publish); ok && c.Via == "will-decoded" {
+		cm := model.New(model.CONNECT)
+		cm.ClientID = "c17"
+		w := api.Observe(pp)
+		q := w.QoS
+		if q > 2 {
+			q = 2 // a will cannot carry QoS 3
+		}
+		cm.Will = &model.Will{Topic: w.TopicName, Payload: w.Payload, QoS: q, Retain: w.Retain, PayloadFormat: w.PayloadFormat,
+			MessageExpiry: w.MessageExpiry, ContentType: w.ContentType, ResponseTopic: w.ResponseTopic, CorrelationData: w.CorrelationData, UserProps: w.UserProps}
+		cm.Normalize()
+		dq, err, pan := read(ref.Canonical(&cm))
+		if pan != nil {
+			return "panic", fmt.Sprintf("ReadPacket panicked: %v", pan.Value)
+		}
+		dc, isConnect := dq.(*mq.Connect)
+		if err != nil || !isConnect || dc.Will() == nil {
+			return "", "" // acceptance is judged elsewhere
+		}
+		p = dc.Will()
+		m = api.Observe(p)
 	}
 	wf, ok := p.(mq.HasWellFormed)
 	if !ok {
@@ -154,14 +191,20 @@ func TestC17(t *testing.T) {
 		return
 	}
 
-	run := func(m model.Packet, wire bool, class string, nt bool) (caseC17, string, string) {
+	runVia := func(m model.Packet, wire bool, via, class string, nt bool) (caseC17, string, string) {
 		m.Normalize()
-		c := caseC17{ModelGob: packModel(m), Model: m.String(), Wire: wire}
+		c := caseC17{ModelGob: packModel(m), Model: m.String(), Wire: wire, Via: via}
 		sig, msg := checkC17(c)
-		r.Case(vf.FPs(c.ModelGob, fmt.Sprint(wire)), nt, class, func() interface{} {
-			return map[string]interface{}{"model": m.String(), "decoded_from_wire": wire}
+		if via != "" {
+			class += "/" + via
+		}
+		r.Case(vf.FPs(c.ModelGob, fmt.Sprint(wire), via), nt, class, func() interface{} {
+			return map[string]interface{}{"model": m.String(), "decoded_from_wire": wire, "via": via}
 		})
 		return c, sig, msg
+	}
+	run := func(m model.Packet, wire bool, class string, nt bool) (caseC17, string, string) {
+		return runVia(m, wire, "", class, nt)
 	}
 
 	// the complete Publish condition cube: topic x alias x QoS 0..3 x packet id
@@ -174,9 +217,11 @@ func TestC17(t *testing.T) {
 							m := model.New(model.PUBLISH)
 							m.TopicName, m.TopicAlias, m.QoS, m.PacketID = topic, alias, qos, id
 							nt := topic == "" && alias != 0 || qos == 0 && id == 0
-							c, sig, msg := run(m, wire, "publish-cube", nt)
-							if msg != "" {
-								r.Fail("wellformed", c, sig, "%s", msg)
+							for _, via := range []string{"", "attached", "will-decoded"} {
+								c, sig, msg := runVia(m, wire, via, "publish-cube", nt)
+								if msg != "" {
+									r.Fail("wellformed", c, sig, "%s", msg)
+								}
 							}
 						}
 					}
@@ -236,7 +281,8 @@ func TestC17(t *testing.T) {
 		wire := rapid.Bool().Draw(t, "wire")
 		bad := publishMalformed(&m)
 		nt := !bad && (m.TopicName == "" || m.PacketID == 0)
-		c, sig, msg := run(m, wire, fmt.Sprintf("publish/malformed=%v", bad), nt)
+		via := rapid.SampledFrom([]string{"", "", "", "attached", "will-decoded"}).Draw(t, "via")
+		c, sig, msg := runVia(m, wire, via, fmt.Sprintf("publish/malformed=%v", bad), nt)
 		if msg != "" {
 			r.Fail("wellformed", c, sig, "%s", msg)
 			t.Fatalf("%s", msg)
